@@ -124,6 +124,28 @@ func ruleR05_5(c *Check) {
 			}
 		}
 		r.Check(eq != nil && (isRev != nil || implicitRev), pi, "reverse look-ahead continues only on the same user key", b, "goto FILL is not under bytes.Equal(ParseKey(next key), item.key) in reverse mode")
+		// … and for EVERY such version: whether the newer version is live, deleted or expired is decided
+		// at FILL (a dead newest version must hide the older one just filled), not before the jump
+		for _, g := range gs {
+			if g.Implicit || g.Lifted {
+				continue
+			}
+			if g == *eq {
+				continue
+			}
+			if call, ok := unparen(g.Cond).(*ast.CallExpr); ok {
+				if fn, _ := w.Callee(call).(*types.Func); fn != nil && fn.Name() == "Equal" {
+					continue
+				}
+			}
+			if _, ok := w.cmpRoles(g.Cond, g.Val, func(e ast.Expr) bool { return w.isCallTo(e, w.Func("y.ParseTs")) }, func(e ast.Expr) bool { return w.fieldOf(e) == w.Field("badger.Iterator.readTs") }); ok {
+				continue
+			}
+			if w.fieldOf(g.Cond) == rev {
+				continue
+			}
+			r.Check(false, pi, "every newer version of the same key at or below readTs is re-examined", b, "the reverse look-ahead also depends on "+short(w, g.Cond)+": a newer version that fails it (e.g. an expired one) no longer hides the older version already filled")
+		}
 		return true
 	})
 	r.Exists(gotos == 1, pi, "reverse look-ahead present", nil, "expected one `goto FILL`")
